@@ -565,6 +565,10 @@ def validate_usm_message(message: PlainMessage) -> None:
 
     :raises SnmpError: If an error was found
     """
+    if not isinstance(message.scoped_pdu.data, Report):
+        # Only reports carry USM error indications. In any other PDU the
+        # usmStats counters are ordinary data (f.ex. when walking them).
+        return
     pdu = message.scoped_pdu.data.value
     errors = {
         ObjectIdentifier(
